@@ -1,5 +1,6 @@
 """Which contracts, lemmas and bounded stand-ins decide which property."""
 from pyvc.check import Plan
+from pyvc import leancheck
 
 import contracts.binpacking  # noqa: F401
 import contracts.tsp  # noqa: F401
@@ -280,12 +281,17 @@ PLANS["C05"] = Plan(
     "C05", "proof",
     functions=[TL + ":tour_length", "moptipyapps.tsp.instance:Instance.__new__",
                "moptipyapps.tsp.instance:Instance.__new__#copy-check"],
+    lemmas=["cyc_is_tour", "rmax_ge", "rmin_le", "cyc_le_max", "cyc_ge_min", "tour_within_instance_bounds"],
+    extra=[leancheck.lean_prover(["A3.lean"], "C05")],
     explanation="tour_length equals the cyclic edge sum for every matrix/permutation/dtype, no int64 overflow; block contracts "
                 "on tsp.Instance.__new__: upper bound = sum of row maxima, lower bound = sum of row minima (off-diagonal), "
                 "symmetry flag true iff the matrix is symmetric, zero diagonal and a positive entry per row enforced, stored "
                 "matrix equals the given one entry by entry (copy-check loop)",
-    assumptions=["'every tour length lies within [lower, upper]' additionally needs the permutation-sum lemma A3 "
-                 "(design_round/A3.lean, Lean-checked in the design round) - not re-checked by this command",
+    assumptions=["lemma tour_within_instance_bounds (sum of row minima <= tour <= sum of row maxima for every permutation) is "
+                 "proved by induction in z3 from one axiom: the permutation-sum lemma A3 (lean/A3.lean = Mathlib "
+                 "Equiv.sum_comp), re-checked by Lean in the thorough tier; the correspondence between the Lean statement "
+                 "(Fin n, Equiv.Perm) and the SMT instance (array x with range + injectivity) is trusted",
+                 "the instance's tour_length_lower_bound may also come from a table of known optima: not verifiable here",
                  "E1: int_range_to_dtype(-limit, limit) returns a signed type containing the range"],
 )
 
